@@ -1146,7 +1146,8 @@ func (g *Gen) binop(st *State, op token.Token, x, y Val, xt, rt types.Type) Val 
 				e = "false"
 			}
 		} else {
-			e = and(eq(a.Ref, b.Ref), eq(a.Idx, b.Idx))
+			// nil pointers are equal whatever index term they carry
+			e = and(eq(a.Ref, b.Ref), "(or (= "+a.Ref+" 0) "+eq(a.Idx, b.Idx)+")")
 			if a.Ref == "0" || b.Ref == "0" {
 				e = eq(a.Ref, b.Ref)
 			}
